@@ -748,6 +748,35 @@ def _check_cdf_inverse(out, case, cls, params, dist, ref):
         if not abs(c - y) <= ty:
             out.fail(tag("cdf-inverse") + ":cdf-of-inv", {"y": y, "inv": v, "cdf": c, "allowed_dy": ty, "dist": str(dist)})
             break
+    if trunc and hasattr(dist, "inverse_cumulative_probability_not_truncated") and \
+            hasattr(dist, "cumulative_probability_not_truncated"):
+        # the class also offers the pair of the normal distribution it was cut from: cdf and inverse of THAT one,
+        # whatever the window is
+        inv_nt, cdf_nt = dist.inverse_cumulative_probability_not_truncated, dist.cumulative_probability_not_truncated
+        for y in ys:
+            if abs(2 * y - 1) > 1 - 2e-9:
+                continue
+            v, e = _call(inv_nt, y)
+            if e is not None:
+                out.fail("inverse-raises:%s:%s" % (cls, type(e).__name__), {"y": y, "not_truncated": True,
+                                                                            "error": str(e)[:200]})
+                break
+            zr = float(M.sqrt(2) * M.erfinv(2 * M.mpf(y) - 1))
+            zv = (v - mu) / sg
+            tz = tol_z(zr)
+            if not abs(zv - zr) <= tz:
+                out.fail(tag("inverse-reference") + ":not-truncated", {"y": y, "inv": v, "z": zv, "reference_z": zr,
+                                                                      "allowed_dz": tz, "dist": str(dist)})
+                break
+            c, e = _call(cdf_nt, v)
+            if e is not None:
+                out.fail("cdf-raises:%s:%s" % (cls, type(e).__name__), {"x": v, "not_truncated": True,
+                                                                        "error": str(e)[:200]})
+                break
+            if not abs(c - y) <= R.phi(zr) * tz + 1e-12:
+                out.fail(tag("cdf-inverse") + ":not-truncated", {"y": y, "inv": v, "cdf": c, "dist": str(dist)})
+                break
+        out.label("not-truncated-pair-checked")
     if trunc:
         for y, want in ((0, lo), (1, hi), (0.0, lo), (1.0, hi)):
             v, e = _call(inv, y)
